@@ -27,3 +27,21 @@ START = Root
 
 def grammar(**kw):
     return extract_grammar(list(CLASSES), START, **kw)
+
+
+class BagRoot(ABC):
+    pass
+
+
+@dataclass
+class OnlyBag(BagRoot):
+    items: list[Leaf]
+
+
+class _BagOnly:
+    CLASSES = [OnlyBag, Leaf]
+    START = BagRoot
+
+
+def grammar_bag_only(**kw):
+    return extract_grammar([OnlyBag, Leaf], BagRoot, **kw)
